@@ -702,6 +702,19 @@ public:
       fo["const"] = MD->isConst();
       fo["static"] = MD->isStatic();
       fo["access"] = (int64_t)MD->getAccess();
+      {
+        // a public member of a nested class that is itself private/protected in its enclosing class is not callable from outside
+        int64_t oa = 0;
+        for (const DeclContext *D2 = MD->getParent(); D2 && isa<CXXRecordDecl>(D2); D2 = D2->getParent()) {
+          auto *RD2 = cast<CXXRecordDecl>(D2);
+          if (isa<CXXRecordDecl>(RD2->getDeclContext())) {
+            auto a2 = RD2->getAccess();
+            if (a2 == AS_private || a2 == AS_protected)
+              oa = (int64_t)a2;
+          }
+        }
+        fo["outer_access"] = oa;
+      }
       if (isa<CXXConstructorDecl>(MD)) {
         fo["kind"] = "ctor";
         if (cast<CXXConstructorDecl>(MD)->isCopyConstructor())
